@@ -13,9 +13,10 @@ VARIABLES op, pat, rx, phase, op2, conn
 vars == <<op, pat, rx, phase, op2, conn>>
 
 AlphaSet == { Alpha[i] : i \in 1 .. NA }
-PatChars(o) == CASE o \in {"eq", "ne"} -> AlphaSet \cup {"*", "?"}
-                 [] o \in {"like", "notlike"} -> AlphaSet \cup {"%", "_", "?", "*"}
-                 [] o \in {"eeq", "ene"} -> AlphaSet \cup {"*", "?", "%", "_"}
+Flipped == {"A", "b"}          \* the letters of the alphabet in the other case
+PatChars(o) == CASE o \in {"eq", "ne"} -> AlphaSet \cup Flipped \cup {"*", "?"}
+                 [] o \in {"like", "notlike"} -> AlphaSet \cup Flipped \cup {"%", "_", "?", "*"}
+                 [] o \in {"eeq", "ene"} -> AlphaSet \cup Flipped \cup {"*", "?", "%", "_"}
 NoRx == [els |-> <<>>, astart |-> FALSE, aend |-> FALSE]
 
 Init == op = "" /\ pat = <<>> /\ rx = NoRx /\ phase = "op" /\ op2 = "" /\ conn = "none"
@@ -56,6 +57,7 @@ Class == (IF conn # "none" THEN "same-text-two-operators/" \o op2 \o "-after-" E
                   (IF \E i \in 1 .. Len(rx.els) : rx.els[i].ch \in Meta THEN "/escaped-meta" ELSE "")
                 ELSE (IF HasAny({"+", "{", "}", "|"}) THEN "/meta:+{}|" ELSE "")
                      \o (IF HasAny({".", "(", ")", "[", "]", "^", "$"}) THEN "/meta:.()[]^$" ELSE "")
+                     \o (IF HasAny(Flipped) THEN "/case" ELSE "")
                      \o (IF op \in {"like", "notlike"} /\ HasAny({"?", "*"}) THEN "/foreign-wildcard" ELSE "")
                      \o (IF op \in {"eeq", "ene"} /\ HasAny({"?", "*", "%", "_"}) THEN "/wildcard-chars" ELSE ""))
 
